@@ -1130,6 +1130,25 @@ def equal_literal_scenarios(run: Run, impl: Impl):
                                      f"(type_promotion={tp}), gives {together[k]} but {alone[k]} when it is the first expression of a block",
                                      {"dtype": np.dtype(dt).name, "type_promotion": tp, "literals": [repr(c) for c in grp], "alone": alone, "in_one_block": together,
                                       "module": op.__name__})
+    # a FLOAT literal whose value happens to be zero is a float literal all the same: with an integer Var and type_promotion=False it
+    # must come out exactly as the float literal 1.5 does (a TypeError) - 0.0, -0.0 and numpy float scalars of value zero included
+    for op in impl.opsets[:2]:
+        for dt in (np.int64, np.int32, np.uint8):
+            for name, f in exprs.items():
+                if name in ("floordiv", "truediv"):
+                    continue
+                x = impl.argument(impl.Tensor(dt, (3,)))
+                with impl.F.operator_overloading(op, type_promotion=False, constant_promotion=True):
+                    ref = outcome(f, x, 1.5)
+                for z in (0.0, -0.0, np.float32(0.0), np.float64(-0.0)):
+                    with impl.F.operator_overloading(op, type_promotion=False, constant_promotion=True):
+                        got = outcome(f, x, z)
+                    n += 1
+                    if got != ref:
+                        run.fail("impl", f"C17/float-zero-literal-without-promotion/{name}",
+                                 f"{name} of a {np.dtype(dt).name} Var with the float literal {z!r} under type_promotion=False gives {got}, while the float "
+                                 f"literal 1.5 gives {ref}: a float operand does not stop being one because its value is zero",
+                                 {"dtype": np.dtype(dt).name, "literal": repr(z), "module": op.__name__})
     return n
 
 
